@@ -418,7 +418,14 @@ def av_binop_core(bits, op, A, B):
         r.m0 |= mask(tz)
         return r
     if op == 'and':
-        return AV(bits, 0, min(A.hi, B.hi), (A.m0 | B.m0) & m, A.m1 & B.m1)
+        r = AV(bits, 0, min(A.hi, B.hi), (A.m0 | B.m0) & m, A.m1 & B.m1)
+        # x & (2^k - 1) when x stays inside one 2^k-aligned block: the interval carries over
+        for X, Y in ((A, B), (B, A)):
+            if Y.is_const():
+                c = Y.lo
+                if c and (c & (c + 1)) == 0 and (X.lo & ~c) == (X.hi & ~c):
+                    r.lo, r.hi = X.lo & c, X.hi & c
+        return r
     if op == 'or':
         return AV(bits, max(A.lo, B.lo), m, A.m0 & B.m0, (A.m1 | B.m1) & m)
     if op == 'xor':
@@ -549,7 +556,12 @@ class Env:
         bits, op = t[1], t[2]
         args = t[3:]
         if op in ('eq', 'ne', 'ult', 'ule', 'ugt', 'uge', 'slt', 'sle', 'sgt', 'sge'):
-            return av_cmp(op, self.av(args[0]), self.av(args[1]))
+            r = av_cmp(op, self.av(args[0]), self.av(args[1]))
+            if not r.is_const() and op in ('ult', 'ule', 'ugt', 'uge', 'eq', 'ne') and args[0][0] != 'c' and args[1][0] != 'c':
+                r2 = self._cmp_affine(op, args[0], args[1])
+                if r2 is not None:
+                    return r2
+            return r
         if op == 'zext':
             A = self.av(args[0])
             return AV(bits, A.lo, A.hi, A.m0 | (mask(bits) & ~mask(A.bits)), A.m1)
@@ -615,6 +627,45 @@ class Env:
         if len(args) == 2 and args[0][1] == bits and args[1][1] > 0:
             return av_binop(bits, op, self.av(args[0]), self.av(args[1]))
         return AV(bits) if bits else AV(1)
+
+    def _cmp_affine(self, op, a, b):
+        """relational comparison through the affine difference b - a (both operands far from wrapping)"""
+        from .affine import aff, _signed, _range
+        w = a[1]
+        if w < 8 or b[1] != w:
+            return None
+        A, B = self.av(a), self.av(b)
+        half = 1 << (w - 1)
+        if A.hi >= half or B.hi >= half:
+            return None
+        fa, fb = aff(a, self), aff(b, self)
+        co = dict(fb[0])
+        for k, v in fa[0].items():
+            co[k] = co.get(k, 0) - v
+        m = mask(w)
+        co = {k: v & m for k, v in co.items() if v & m}
+        c = (fb[1] - fa[1]) & m
+        sco, sc = _signed(co, c, w)
+        if any(abs(v) > (1 << 40) for v in sco.values()):
+            return None
+        lo, hi = _range(sco, sc, self)
+        if not (-half < lo and hi < half):
+            return None
+        # D = b - a lies in [lo, hi]
+        t, f = AV.const(1, 1), AV.const(1, 0)
+        if op == 'ule':
+            return t if lo >= 0 else (f if hi < 0 else None)
+        if op == 'ult':
+            return t if lo > 0 else (f if hi <= 0 else None)
+        if op == 'uge':
+            return t if hi <= 0 else (f if lo > 0 else None)
+        if op == 'ugt':
+            return t if hi < 0 else (f if lo >= 0 else None)
+        if op == 'eq':
+            return f if (lo > 0 or hi < 0) else (t if lo == hi == 0 else None)
+        if op == 'ne':
+            return t if (lo > 0 or hi < 0) else (f if lo == hi == 0 else None)
+        return None
 
     def const_of(self, t):
         if t[0] == 'c':
@@ -734,7 +785,16 @@ def bit_provenance(t, env, depth=0):
     if t[0] == 'c':
         return [(t[2] >> i) & 1 for i in range(bits)]
     if t[0] == 's':
-        return [('in', t, i) for i in range(bits)]
+        res = [('in', t, i) for i in range(bits)]
+        f = env.sym_facts(t) if env.sym_facts else None
+        if f is not None:
+            # bits fixed by an invariant of the symbol itself (not by the path condition)
+            for i in range(bits):
+                if (f.m0 >> i) & 1:
+                    res[i] = 0
+                elif (f.m1 >> i) & 1:
+                    res[i] = 1
+        return res
     if t[0] == 'o' and depth <= 60:
         op = t[2]
         a = t[3:]
